@@ -103,7 +103,16 @@ mutual
         exact .structc h1 h2 h.1 (checkFields_sound p plans sfs.toList tfs.toList h.2)
       · cases h
     | .underlying _ _ _, _, _, h => by unfold checkTy at h; cases h
-    | .srcPtr _ _, _, _, h => by unfold checkTy at h; cases h
+    | .srcPtr t' inner, s, t, h => by
+      unfold checkTy at h
+      split at h
+      · cases h
+      · rename_i _ _ se hs hnt
+        simp only [Bool.and_eq_true] at h
+        have := Ty.eq_of_beq' h.1
+        subst this
+        exact .srcPtr hs (fun e he => hnt e he) (checkTy_sound p inner se _ h.2)
+      · cases h
     | .enumc _ _, _, _, h => by unfold checkTy at h; cases h
     | .withCtor _ _ _, _, _, h => by unfold checkTy at h; cases h
     | .ctorUpdate _ _ _ _ _, _, _, h => by unfold checkTy at h; cases h
